@@ -312,6 +312,19 @@ fn gen_random(t: &mut Tape, tier: Tier) -> (Vec<SubHunk>, Cfg) {
         // arbitrary, the marker column is added by render()
         subs.push(SubHunk { minus, plus, single_run: None });
     }
+    // A style may be given as the name of another style option (`--plus-emph-style
+    // grep-match-word-style`): the emphasis styles are then what that option holds.  (Drawn last.)
+    let mut extra = t.fork(4);
+    if extra.chance(1, 6) {
+        for (emph, carrier) in [("plus-emph-style", "grep-match-word-style"), ("minus-emph-style", "grep-match-line-style"), ("plus-non-emph-style", "grep-context-line-style")] {
+            if extra.coin() {
+                if let Some(v) = cfg.get(emph).map(|s| s.to_string()) {
+                    cfg.set(carrier, &v);
+                    cfg.set(emph, carrier);
+                }
+            }
+        }
+    }
     (subs, cfg)
 }
 
